@@ -19,6 +19,7 @@ import (
 	"time"
 
 	"verif/engine/gossa"
+	"verif/engine/llsym"
 	"verif/engine/sym"
 )
 
@@ -214,6 +215,7 @@ func main() {
 		}
 		var l []kv
 		gossa.ForkSites.Range(func(k, v interface{}) bool { l = append(l, kv{k.(string), *v.(*int64)}); return true })
+		llsym.ForkSites.Range(func(k, v interface{}) bool { l = append(l, kv{k.(string), *v.(*int64)}); return true })
 		sort.Slice(l, func(i, j int) bool { return l[i].v > l[j].v })
 		for i, e := range l {
 			if i > 40 {
